@@ -233,6 +233,13 @@ func InitApp() *App {
 		"wire_b.go": "//go:build wireinject\n\npackage cfg\n\nimport (\n\t\"github.com/google/wire\"\n\t\"{{PKG}}/db/store\"\n)\n\nvar StoreSet = wire.NewSet(store.NewSQL, wire.Bind(new(Store), new(*store.SQL)))\n\nfunc InitApp() *App {\n\twire.Build(CacheSet, StoreSet, NewQ, NewApp)\n\treturn nil\n}\n",
 	}}
 	out = append(out, ext2)
+	ext3 := &Config{Family: "W2", Desc: "Bind in a set without its constructor, external package under an alias", Pkg: "cfg", Injectors: []string{"InitApp"}, Files: map[string]string{
+		"mem/store/store.go": ext.Files["mem/store/store.go"],
+		"db/store/store.go":  ext.Files["db/store/store.go"],
+		"types.go":           ext.Files["types.go"],
+		"wire.go": "//go:build wireinject\n\npackage cfg\n\nimport (\n\t\"github.com/google/wire\"\n\tdbstore \"{{PKG}}/db/store\"\n\t\"{{PKG}}/mem/store\"\n)\n\nvar CacheBind = wire.NewSet(wire.Bind(new(Cache), new(*store.Mem)))\nvar StoreBind = wire.NewSet(wire.Bind(new(Store), new(*dbstore.SQL)))\n\nfunc InitApp() *App {\n\twire.Build(CacheBind, StoreBind, store.NewMem, dbstore.NewSQL, NewQ, NewApp)\n\treturn nil\n}\n",
+	}}
+	out = append(out, ext3)
 	// multi-file
 	mf := feature("multi-file", "sets in one file, injector in another", `
 func InitApp(dsn string) (*App, error) {
